@@ -108,6 +108,19 @@ class Gen:
 
     def special(self):
         D = self.defs
+        # field type with decoy inherent items (see the preamble of the generated file)
+        sh = lambda i, named: {'name': ('f%d' % i) if named else str(i), 'ty': 'Shadow', 'shape': ('prim', 'u32'), 'attr': 'none', 'mel': True}
+        D.append({'kind': 'struct', 'name': 'S%d' % len(D), 'named': True, 'fields': [sh(0, True), self.fld(1, 0, 'none', True)], 'generics': [], 'transparent': False})
+        D.append({'kind': 'struct', 'name': 'S%d' % len(D), 'named': False, 'fields': [sh(0, False)], 'generics': [], 'transparent': False})
+        D.append({'kind': 'struct', 'name': 'S%d' % len(D), 'named': False, 'fields': [sh(0, False)], 'generics': [], 'transparent': True})
+        vs = [{'name': 'A', 'fields': [sh(0, False)], 'skip': False, 'src': 'implicit', 'kind': 'tuple'},
+              {'name': 'B', 'fields': [sh(0, True), self.fld(1, 1, 'none', True)], 'skip': False, 'src': 'implicit', 'kind': 'named'},
+              {'name': 'C', 'fields': [], 'skip': False, 'src': 'implicit', 'kind': 'unit'}]
+        self.assign_indices(vs)
+        D.append({'kind': 'enum', 'name': 'E%d' % len(D), 'variants': vs, 'generics': []})
+        # other representations than `transparent` never get the in-place entry point
+        D.append({'kind': 'struct', 'name': 'S%d' % len(D), 'named': False, 'fields': [self.fld(0, 2, 'none', False), self.fld(1, 2, 'none', False)], 'generics': [], 'transparent': False, 'repr': 'C'})
+        D.append({'kind': 'struct', 'name': 'S%d' % len(D), 'named': True, 'fields': [self.fld(0, 3, 'none', True)], 'generics': [], 'transparent': False, 'repr': 'C'})
         # attributes written with a trailing comma
         for named in (True, False):
             for attr in ('compact', 'skip', 'encoded_as'):
@@ -321,7 +334,23 @@ def render(defs):
            'impl Encode for AsFixed { fn encode_to<W: Output + ?Sized>(&self, dest: &mut W) { self.0.encode_to(dest) } }',
            'impl DecodeWithMemTracking for AsFixed {}',
            'impl From<AsFixed> for u32 { fn from(x: AsFixed) -> u32 { x.0 } }',
-           'impl MaxEncodedLen for AsFixed { fn max_encoded_len() -> usize { 4 } }', '']
+           'impl MaxEncodedLen for AsFixed { fn max_encoded_len() -> usize { 4 } }', '',
+           '// a field type with inherent items named like the trait items generated code calls: generated code must name the trait',
+           'pub struct Shadow(pub u32);',
+           'impl Encode for Shadow { fn encode_to<W: Output + ?Sized>(&self, dest: &mut W) { Encode::encode_to(&self.0, dest) } }',
+           'impl parity_scale_codec::EncodeLike for Shadow {}',
+           'impl Decode for Shadow { fn decode<I: Input>(input: &mut I) -> Result<Self, Error> { Ok(Shadow(<u32 as Decode>::decode(input)?)) } }',
+           'impl DecodeWithMemTracking for Shadow {}',
+           'impl MaxEncodedLen for Shadow { fn max_encoded_len() -> usize { 4 } }',
+           'impl Shadow {',
+           '    pub fn max_encoded_len() -> usize { 0 }',
+           '    pub fn size_hint(&self) -> usize { 1000 }',
+           '    pub fn encode_to(&self, _dest: &mut Vec<u8>) {}',
+           '    pub fn encode(&self) -> u8 { 0 }',
+           '    pub fn encoded_size(&self) -> usize { 0 }',
+           '    pub fn decode(_input: &mut &[u8]) -> Result<u8, ()> { Err(()) }',
+           '    pub fn decode_into(_a: u8) {}',
+           '}', '']
 
     def fattr(f):
         # `trail`: the same attribute written with a trailing comma inside the parentheses (accepted by the attribute
@@ -361,6 +390,8 @@ def render(defs):
         if d['kind'] == 'struct':
             if d.get('transparent'):
                 out.append('#[repr(transparent)]')
+            if d.get('repr'):
+                out.append('#[repr(%s)]' % d['repr'])
             if d['named'] is None:
                 out.append('pub struct %s;' % d['name'])
             elif d['named']:
